@@ -70,7 +70,10 @@ fn draw_names(rng: &mut Rng, n: usize, prefix_names: bool, long_names: bool) -> 
     while out.len() < n {
         let name = if prefix_names && !out.is_empty() && rng.pct(35) {
             // extend an existing name so that one is a proper prefix of the other
-            let base: &String = rng.pick(&out);
+            // (the names after the first DER_DEFS go to the small per-run synthetic universe: there
+            // a name mostly extends another name of that universe, so that both meet in one
+            // import list)
+            let base: &String = if out.len() > DER_DEFS && rng.pct(75) { rng.pick(&out[DER_DEFS..]) } else { rng.pick(&out) };
             format!("{}{}", base, rng.pick(&["1", "A", "_", "x", "Z"]))
         } else {
             format!("{}{}", rng.pick(NAME_STEMS), rng.pick(NAME_SUFFIX))
